@@ -5,7 +5,8 @@ statement (not from the C++):
 * a machine is either stopped or *in* a state (`active`); it remembers the state it left last;
 * an event goes to the sub-machine of the active state; only when that sub-machine has reached
   its terminal state (id 0) it is stopped and the machine handles the event itself;
-* handling: the handler registered for the event (else the default handler) may pick the target;
+* handling: the handler registered for the event (else the default handler) may pick the target
+  (an answer >= 0; a negative answer picks none — state_machine.h: "< 0 = no state change");
   otherwise the FIRST route in registration order whose event matches (or is the wildcard 0)
   and whose guard holds is taken; no candidate = nothing happens;
 * a transition is: exit action of the source, route action, enter action of the target,
@@ -163,7 +164,7 @@ def handle (ops : SubOps SCtx Sub) (ctx : SCtx) (m : S Sub) (a : StateId) (e : E
       (x.1, x.2.1, tr ++ x.2.2)
   match askHandler st m.mid v ctx e with
   | some (target, t) =>
-    if target = -1 then viaRoute t
+    if target < 0 then viaRoute t
     else
       let x := fire ops ctx m a e target none none
       (x.1, x.2.1, t ++ x.2.2)
@@ -208,6 +209,7 @@ def applyCall (n : Nat) (m : SMach n) (c : Call) : SMach n × Bool × Trace :=
       let r := (subOps n).start [] s.1
       (r.1, r.2.1, s.2 ++ r.2.2)
   | .run e => (subOps n).run [] m e
+  | .defn _ => (m, false, [])
 
 /-- what the five observers answer between calls -/
 def view (rt : SRt) : View :=
